@@ -307,6 +307,9 @@ pub struct TraceCheck {
     /// its first entry: (trace index, function, first (stack, locals), now (stack, locals))
     pub loop_head_drift: Option<(usize, usize, (usize, usize), (usize, usize))>,
     pub reentries: usize,
+    /// distinct observed steps that stay in / push / replace the current frame:
+    /// request `(step f pc s l variant)` → the answer the executor's behaviour corresponds to
+    pub steps: HashMap<String, String>,
 }
 
 #[derive(Clone, Debug)]
@@ -336,7 +339,7 @@ pub struct FrameSample {
 /// (stack length at function entry minus the argument).
 pub fn check_trace(functions: &[Function], anns: &[Vec<Option<Ann>>], trace: &Trace) -> TraceCheck {
     let mut shadow: Vec<Shadow> = vec![];
-    let mut res = TraceCheck { points: 0, max_depth: 0, mismatch: None, misaligned: None, stores_checked: 0, tailcalls: vec![], samples: vec![], loop_head_drift: None, reentries: 0 };
+    let mut res = TraceCheck { points: 0, max_depth: 0, mismatch: None, misaligned: None, stores_checked: 0, tailcalls: vec![], samples: vec![], loop_head_drift: None, reentries: 0, steps: HashMap::new() };
     let sample_every = (trace.len() / 150).max(1);
     // slot numbering: the compiler gives the variable bound by a `Store` the index `local_count`
     // it has at that point; the VM appends at the runtime count. They agree only if every
@@ -356,6 +359,8 @@ pub fn check_trace(functions: &[Function], anns: &[Vec<Option<Ann>>], trace: &Tr
             }
         }
     }
+    // (depth, base) of the frame that executed the previous traced instruction
+    let mut prev_frame: Option<(usize, usize)> = None;
     for (k, &(f, pc, s, l)) in trace.iter().enumerate() {
         if k == 0 {
             if s == 0 {
@@ -494,6 +499,33 @@ pub fn check_trace(functions: &[Function], anns: &[Vec<Option<Ann>>], trace: &Tr
                 _ => {}
             }
         }
+        // per-step observation for the model replay (`stepInstr` on a state of this shape)
+        if let (Some((pd, pbase)), true) = (prev_frame, k > 0) {
+            let (pf, ppc, ps, pl) = trace[k - 1];
+            let pinstr = functions[pf].instructions[ppc];
+            let d = shadow.len();
+            let same = d == pd && top.f == pf && !matches!(pinstr, Instruction::TailCall(_));
+            let pushed = d == pd + 1 && pc == 0;
+            let replaced = d == pd && matches!(pinstr, Instruction::TailCall(_)) && pc == 0;
+            // a step that returned to a caller is not compared (the exit rule covers it); nor are
+            // Select (two-phase) and steps that parked
+            if (same || pushed || replaced) && !matches!(pinstr, Instruction::Select) && ps >= pbase && res.steps.len() < 3000 {
+                let variant = match pinstr {
+                    Instruction::JumpIf(_) => if same && pc == ppc + 1 { "nil".to_string() } else { "plain".to_string() },
+                    Instruction::Get(i) => format!("tup:{}", i + 1),
+                    Instruction::Call => if pushed { format!("fn:{f}") } else { "builtin".to_string() },
+                    Instruction::TailCall(false) => format!("fn:{f}"),
+                    Instruction::Send => "proc".to_string(),
+                    _ => "plain".to_string(),
+                };
+                let req = format!("(step {pf} {ppc} {} {pl} {variant})", ps - pbase);
+                // model frames: the synthetic process has 2 frames before the step
+                let depth_after = if pushed { 3 } else { 2 };
+                let expect = format!("ok {depth_after} {f} {pc} {} {l} none", s - pbase);
+                res.steps.entry(req).or_insert(expect);
+            }
+        }
+        prev_frame = Some((shadow.len(), top.base));
         if let Instruction::TailCall(r) = functions[f].instructions[pc] {
             if res.tailcalls.len() < 4000 {
                 res.tailcalls.push(TailCallObs {
